@@ -68,6 +68,7 @@ CBinNum == { Case("dot", p[1], p[2], None) : p \in AllPairs }
            \cup { Case("deltaR", p[1], p[2], None) : p \in Pairs(3) \cup Pairs(4) }
            \cup { Case("deltaR2", p[1], p[2], None) : p \in Pairs(3) }
            \cup { Case(op, p[1], p[2], None) : op \in {"deltaRapidityPhi", "deltaRapidityPhi2"}, p \in Pairs(4) }
+CCmp == { Case(op, p[1], p[2], None) : op \in {"equal", "not_equal", "isclose"}, p \in AllPairs }
 CBoost == { Case(op, v, p, None) : op \in {"boost_p4", "boostCM_of_p4", "boost", "boostCM_of"}, v \in Vec4, p \in Boosters4 }
           \cup { Case(op, v, b, None) : op \in {"boost_beta3", "boostCM_of_beta3", "boost", "boostCM_of"}, v \in Vec4, b \in Beta3s }
 
@@ -92,6 +93,7 @@ Init == \/ On("unary") /\ c \in CUnary
         \/ On("binvec") /\ c \in CBinVec
         \/ On("binnum") /\ c \in CBinNum
         \/ On("boost") /\ c \in CBoost
+        \/ On("cmp") /\ c \in CCmp
         \/ On("pred") /\ c \in CPred
 Next == UNCHANGED c
 Spec == Init /\ [][Next]_c
